@@ -101,8 +101,17 @@ class QuadAnalysis(af.Analysis):
             q = math.floor(q / self.quant) * self.quant
         return -0.5 * q
 
+    # ids of the objects the model itself holds (None: the analysis leaves its instance alone). An analysis is free to
+    # work on the instance it is given in place; what the result reports is built from the samples, not from an
+    # instance some hook was handed earlier
+    scramble_held = None
+
     def log_likelihood_function(self, instance):
-        return self.value([v for _, v in leaves(instance)])
+        v = self.value([v for _, v in leaves(instance)])
+        if self.scramble_held is not None:
+            import c01
+            c01._scramble(instance, self.scramble_held, set())
+        return v
 
     def spec(self):
         return {"centres": self.centres, "scales": self.scales, "weights": self.weights, "quant": self.quant, "hard": self.hard}
@@ -831,6 +840,10 @@ def fit_case(ctx, kind, prog=None, spec=None, settings=None):
     pyrandom.seed(seed)
     np.random.seed(seed % (1 << 32))
     cores = settings.get("cores", 1)
+    if cores == 1 and settings.setdefault("scramble", rng.random() < 0.4):
+        import c01
+        analysis.scramble_held = c01._reachable_ids(model)
+        ctx.hit("fit:analysis-changes-its-instance-in-place")
     case = {"mode": "fit", "kind": kind, "program": prog, "analysis": analysis.spec(), "settings": settings}
     name = f"c05_{kind}_{seed}_{ctx.evaluations}"
     # named = the search writes its output folder (the usual way to run a fit); unnamed = NullPaths
